@@ -209,6 +209,7 @@ def evaluate(exe, judge, cases, bound, tmo=4, fuel=FUEL, judge_timeout=1500, per
                 v["kind"] = "harness_state_mismatch"; v["detail"] = "dim %s vs %s" % (s["dim"], snap["dim"])
                 continue
             v["ok"] = s["ok"]; v["status"] = s["status"]; v["tree"] = s["tree"]
+            v["earlier_trees"] = [steps[k2]["tree"] for k2 in range(k) if "tree" in steps[k2]]
             lines.append(gen_pip.judge_line(rid, snap, s["status"], s["tree"], bound, BIGVALS if snap["big"] >= 0 else [], fuel))
             meta[rid] = v
     jres = run_judge(judge, lines, judge_timeout, per_record)
@@ -269,6 +270,34 @@ def ops_before_step(ops, step):
     return ops
 
 
+def tree_features(tokens):
+    """(has artificial parameters, has a decision node with both children) of a printed tree."""
+    pos = [0]; two = [False]; arts = [False]
+    def expr():
+        n = int(tokens[pos[0] + 1]); pos[0] += 2 + n
+    def node():
+        t = tokens[pos[0]]; pos[0] += 1
+        if t == "N":
+            return False
+        if t == "S":
+            nc, na, nv = (int(x) for x in tokens[pos[0]:pos[0] + 3]); pos[0] += 3
+        else:
+            nc, na = (int(x) for x in tokens[pos[0]:pos[0] + 2]); pos[0] += 2; nv = 0
+        for _ in range(nc): pos[0] += 1; expr()
+        for _ in range(na): pos[0] += 2; expr(); arts[0] = True
+        for _ in range(nv): pos[0] += 1; expr()
+        if t == "D":
+            node()
+            if node():
+                two[0] = True
+        return True
+    try:
+        node()
+    except (IndexError, ValueError):
+        pass
+    return arts[0], two[0]
+
+
 def attribute(v, T, bound):
     """Describe a failure by PREDICATES that state a root cause (each is computed here by a
     differential run or by the judge; none is a fingerprint of the input):
@@ -276,6 +305,8 @@ def attribute(v, T, bound):
                                        and the same history with the copy constructor in its place is judged correct
       incremental_only                 the failing step re-solves an object that already had a result, and the same
                                        problem solved from scratch by a fresh object is judged correct
+      resolved_tree_had                artificial_parameters / two_way_decision / neither: what a tree held by the object
+                                       before the failing re-solve contained (the two open incremental defects need one of them)
       terminates_under_another_strategy_setting   a timeout that does not occur under another CUTTING x PIVOT setting
       big_parameter / answer_not_affine_in_big_parameter   (judge) the exact answer is not affine in the big parameter"""
     info = {"kind": v["kind"]}
@@ -300,6 +331,12 @@ def attribute(v, T, bound):
             fv = evaluate(T.exe, T.judge, [("fresh", fresh_case(v["snap"]))], min(bound, 6), per_record=120)[0]
         if fv["kind"] is None:
             info["incremental_only"] = True
+            # which of the known defects of the incremental path can be involved: both need something in a tree the
+            # object held before this re-solve (an incremental failure WITHOUT such a tree is a new defect)
+            arts = two = False
+            for t in v.get("earlier_trees", []):
+                a, d = tree_features(t); arts |= a; two |= d
+            info["resolved_tree_had"] = ("artificial_parameters" if arts else "two_way_decision" if two else "neither")
             return info
         info["incremental_only"] = False
         cur = fv; info["fresh_kind"] = fv["kind"]
